@@ -911,3 +911,31 @@ func doReplay(cfg Config, scns []Scenario, path string) int {
 	fmt.Println("ERROR: scenario not found:", r.Scenario)
 	return 2
 }
+
+// InProcessResult summarises an in-process exploration (used by the engine self-tests).
+type InProcessResult struct {
+	Executions int
+	Outcomes   map[string]int
+	Violations []string
+	EngineErr  []string
+}
+
+// InProcess explores scn completely in this process with the given preemption bound (-1 = unbounded).
+func InProcess(scn *Scenario, bound int) InProcessResult {
+	runOne(scn, nil, false) // warm-up
+	st := exploreItem(scn, bound, nil, 1<<30, time.Now().Add(time.Hour))
+	for len(st.Rest) > 0 && len(st.Viols) < 3 && len(st.EngineErr) == 0 {
+		rest := st.Rest
+		st.Rest = nil
+		for _, p := range rest {
+			s2 := exploreItem(scn, bound, p, 1<<30, time.Now().Add(time.Hour))
+			st.merge(s2)
+			st.Rest = append(st.Rest, s2.Rest...)
+		}
+	}
+	res := InProcessResult{Executions: st.Execs, Outcomes: st.Outcomes, EngineErr: st.EngineErr}
+	for _, v := range st.Viols {
+		res.Violations = append(res.Violations, v.Msg)
+	}
+	return res
+}
